@@ -182,6 +182,13 @@ ROUND12 = {
  "C17": "Job names include two that differ in case only (ja, JA).",
 }
 
+ROUND13 = {
+ "C01": "A second real-binary case: only the global scrape_interval changes, the coordinator reloads, and every snapshot of the next 50 cycles must show every target on some shard.",
+ "C04": "Plus a real-process case in which the collect[] param arrives with a reload together with a target that exceeds the limit only with both collectors.",
+ "C10": "One case in forty restarts the sidecar while the reload callback fails (Prometheus not up yet) and checks the update that follows once more 1.3 s later.",
+ "C12": "Plus 2 cases in which a reload raises the job's scrape_timeout from 1 s to 120 s and a target then answers completely after 1.6 s.",
+}
+
 NOT_YET = {
 }
 
@@ -210,7 +217,7 @@ def main():
             "evidence_file": "/verif/evidence/%s.json" % pid,
             "replay_cmd_template": "./bin/vcheck replay {path}",
             "engine": c["engine"],
-            "level_claimed": {"category": c["level"], "text": (c["text"] + " " + ROUND8.get(pid, "") + " " + ROUND9.get(pid, "") + " " + ROUND10.get(pid, "") + " " + ROUND11.get(pid, "") + " " + ROUND12.get(pid, "")).strip(), "design_ref": c["ref"]},
+            "level_claimed": {"category": c["level"], "text": (c["text"] + " " + ROUND8.get(pid, "") + " " + ROUND9.get(pid, "") + " " + ROUND10.get(pid, "") + " " + ROUND11.get(pid, "") + " " + ROUND12.get(pid, "") + " " + ROUND13.get(pid, "")).strip(), "design_ref": c["ref"]},
             "level_note": c["note"],
             "technique": c["technique"],
         })
